@@ -11,7 +11,7 @@ use crate::join::JoinHandle;
 use crate::scoped::spawn_unsafe;
 use crate::sync::Mutex;
 use crate::sync::{AtomicOption, Blocker};
-use crate::yield_now::yield_with;
+use crate::yield_now::{get_co_para, yield_with};
 
 use may_queue::mpsc::Queue;
 
@@ -153,6 +153,9 @@ impl EventSource for EventSender<'_> {
 
     fn yield_back(&self, _cancel: &'static Cancel) {
         // ignore the cancel to let the bottom half get processed
+        // but don't leave its `Canceled` result behind: nothing here consumes it, and the next
+        // park of this coroutine (or of the next one that reuses this stack) would return it
+        get_co_para();
     }
 }
 
